@@ -1,19 +1,38 @@
 """Fakes for the C07 check: an in-process cluster of REAL cascade.executor.data_server.DataServer objects
-(built by their real __init__) and REAL comms.Listener objects over
+(built by their real __init__), REAL comms.Listener objects (real __init__), the REAL comms.callback / send_data /
+get_socket / ReliableSender, over
 
-  * a fake network: comms.get_socket returns a PUSH stub that appends (address, frames) to a bag, the PULL
-    side is a queue the harness fills when the trace says "deliver";
-  * a manual thread pool: jobs submitted to ds_proc_tp run when the trace says so; data_server.wait runs
-    the jobs the trace picks (the loop may not proceed past wait() otherwise);
-  * a fake shm client per host with the conflict-on-existing-key rule of cascade.shm (Manager.add / get / purge);
-  * a fake clock.
+  * a fake TRANSPORT at the level of the `zmq` module (zmq.Context / zmq.Poller are swapped, so it does not matter
+    through which helper, with which optional arguments, or from which module the code under test opens and keeps its
+    sockets): a PUSH socket ASSEMBLES a multipart message per socket, frame by frame (send(..., SNDMORE) appends to the
+    socket's buffer, the frame without SNDMORE puts the assembled message on the wire; send_multipart is that sequence of
+    sends, as in pyzmq).  The wire is a bag of messages the trace delivers / drops / duplicates; the PULL side is a
+    queue filled when the trace says "deliver".  Every frame send is logged (socket id, who sent it, SNDMORE);
+  * a manual thread pool: jobs submitted to the pool run when the trace says so; a job can also be STEPPED: it then runs
+    on a thread of its own under a cooperative scheduler (exactly one thread runs at a time) and pauses after every
+    non-final frame it sends, so that the frame sends of two pool jobs interleave exactly as the trace says (at most
+    max_workers jobs are under way at a time).  concurrent.futures.wait runs the jobs the trace picks (the loop may
+    not proceed past wait() otherwise);
+  * a fake shm client per host with the conflict-on-existing-key rule of cascade.shm (allocate / get / purge);
+  * a fake clock (time.time_ns).
 
-Nothing in the repository is modified; module globals of data_server / comms are swapped for the duration
-of one case and restored afterwards."""
+Nothing in the repository is modified; attributes of zmq / time / concurrent.futures / logging.config /
+cascade.shm.client / cascade.shm.api (and every name in a loaded cascade.* module bound to one of the replaced
+objects) are swapped for the duration of one case and restored afterwards."""
+import collections
+import concurrent.futures
 import contextlib
 import logging
+import logging.config
 import pickle
+import sys
+import threading
+import time
 from concurrent.futures import Future
+
+SNDMORE = 2   # zmq.SNDMORE
+PULL = 7      # zmq.PULL
+HANG_S = 20.0
 
 
 class Clock:
@@ -24,68 +43,237 @@ class Clock:
         return self.ns
 
 
+# ----------------------------------------------------------------------------- transport
+_CUR = None   # the cluster of the case being run
+
+
 class Push:
-    def __init__(self, cluster, address):
-        self.cluster, self.address = cluster, address
+    """zmq PUSH socket: one assembly buffer per socket"""
 
-    def send(self, byt, *a, **k):
-        self.cluster.emit(self.address, [bytes(byt)])
+    def __init__(self, cluster):
+        self.cluster = cluster
+        self.address = None
+        self.parts = []      # [(frame, sender tag)]
+        self.sid = cluster.new_socket_id()
+        self.closed = False
 
-    def send_multipart(self, frames, *a, **k):
-        self.cluster.emit(self.address, [bytes(f) for f in frames])
+    def connect(self, address, *a, **k):
+        self.address = address
+
+    def send(self, data, flags=0, *a, **k):
+        cl = self.cluster
+        more = bool(flags & SNDMORE)
+        tag = cl.sender_tag()
+        cl.wire_log.append((self.sid, tag, more, self.address))
+        self.parts.append((bytes(data), tag))
+        if not more:
+            parts, self.parts = self.parts, []
+            cl.emit(self.address, [p for p, _ in parts], [t for _, t in parts])
+        else:
+            job = getattr(threading.current_thread(), "_verif_job", None)
+            if job is not None:
+                job.yield_point()
+
+    def send_multipart(self, msg_parts, flags=0, *a, **k):
+        parts = list(msg_parts)
+        for p in parts[:-1]:
+            self.send(p, SNDMORE | flags)
+        return self.send(parts[-1], flags)
+
+    def send_pyobj(self, obj, flags=0, *a, **k):
+        return self.send(pickle.dumps(obj), flags)
 
     def set(self, *a, **k):
         pass
 
-    def connect(self, *a, **k):
+    setsockopt = set
+
+    def close(self, *a, **k):
+        self.closed = True
+
+
+class Pull:
+    def __init__(self, cluster):
+        self.cluster = cluster
+        self.queue = []
+        self.address = None
+
+    def bind(self, address, *a, **k):
+        self.address = address
+        self.cluster.pull_by_addr[address] = self
+
+    def recv_multipart(self, *a, **k):
+        return self.queue.pop(0)
+
+    def recv(self, *a, **k):
+        frames = self.queue.pop(0)
+        return frames[0]
+
+    def set(self, *a, **k):
         pass
+
+    setsockopt = set
 
     def close(self, *a, **k):
         pass
 
 
-class Pull:
-    def __init__(self):
-        self.queue = []
+class Context:
+    def __init__(self, *a, **k):
+        pass
 
-    def recv_multipart(self, *a, **k):
-        return self.queue.pop(0)
+    @classmethod
+    def instance(cls, *a, **k):
+        return cls()
+
+    def socket(self, kind, *a, **k):
+        return Pull(_CUR) if kind == PULL else Push(_CUR)
+
+    def term(self, *a, **k):
+        pass
+
+    destroy = term
 
 
 class Poller:
-    def __init__(self, sock):
-        self.sock = sock
+    def __init__(self, *a, **k):
+        self.socks = []
+
+    def register(self, sock, *a, **k):
+        if sock not in self.socks:
+            self.socks.append(sock)
+
+    def unregister(self, sock):
+        self.socks.remove(sock)
 
     def poll(self, timeout=None):
-        return [(self.sock, 1)] if self.sock.queue else []
+        return [(s, 1) for s in self.socks if getattr(s, "queue", None)]
 
-    def register(self, *a, **k):
-        pass
+
+# ----------------------------------------------------------------------------- thread pool
+class JobHang(AssertionError):
+    pass
+
+
+class _Co:
+    """a pool job on a thread of its own, advanced step by step by the harness thread (one of the two runs at a time)"""
+
+    def __init__(self, fn, args, kwargs, tag):
+        self.fn, self.args, self.kwargs = fn, args, kwargs
+        self.resume = threading.Semaphore(0)
+        self.yielded = threading.Semaphore(0)
+        self.stepping = True
+        self.finished = False
+        self.result, self.exc = None, None
+        self.thread = threading.Thread(target=self._main, daemon=True, name="verif-pool-job")
+        self.thread._verif_job = self
+        self.thread._verif_tag = tag
+        self.thread.start()
+
+    def _main(self):
+        self.resume.acquire()
+        try:
+            self.result = self.fn(*self.args, **self.kwargs)
+        except BaseException as e:  # the pool stores it in the future
+            self.exc = e
+        self.finished = True
+        self.yielded.release()
+
+    def advance(self, stepping, timeout=HANG_S):
+        """run until the next pause (stepping) or to the end; False = did not get there in time (blocked on something)"""
+        self.stepping = stepping
+        self.resume.release()
+        return self.yielded.acquire(timeout=timeout)
+
+    def still_running(self, timeout):
+        return not self.yielded.acquire(timeout=timeout)
+
+    def yield_point(self):
+        if self.stepping:
+            self.yielded.release()
+            self.resume.acquire()
 
 
 class ManualExecutor:
     """jobs run when told; job ids = submission order"""
 
-    def __init__(self, *a, **k):
-        self.jobs = []  # [future, fn, args, ran]
+    def __init__(self, max_workers=None, *a, **k):
+        self.max_workers = max_workers or 2
+        self.jobs = []  # [future, fn, args, ran, kwargs, co]
+        self.cluster = _CUR
+        self.host = None
+        if _CUR is not None:
+            _CUR.created_pools.append(self)
 
     def submit(self, fn, *args, **kw):
         fut = Future()
-        self.jobs.append([fut, fn, args, False])
+        self.jobs.append([fut, fn, args, False, kw, None])
         return fut
 
     def pending(self):
         return [i for i, j in enumerate(self.jobs) if not j[3]]
 
-    def run(self, i):
-        fut, fn, args, ran = self.jobs[i]
-        assert not ran
-        self.jobs[i][3] = True
+    def under_way(self):
+        return [i for i, j in enumerate(self.jobs) if not j[3] and j[5] is not None]
+
+    def _finish(self, i, result, exc):
+        j = self.jobs[i]
+        j[3] = True
+        j[5] = None
+        fut = j[0]
         fut.set_running_or_notify_cancel()
-        try:
-            fut.set_result(fn(*args))
-        except BaseException as e:  # the pool stores it in the future
-            fut.set_exception(e)
+        if exc is not None:
+            fut.set_exception(exc)
+        else:
+            fut.set_result(result)
+
+    def run(self, i):
+        """job i runs to completion (from where it is)"""
+        fut, fn, args, ran, kw, co = self.jobs[i]
+        assert not ran
+        if co is None:
+            tag = ("job", self.host, i)
+            prev, self.cluster.sync_tag = self.cluster.sync_tag, tag
+            try:
+                try:
+                    result, exc = fn(*args, **kw), None
+                except BaseException as e:
+                    result, exc = None, e
+            finally:
+                self.cluster.sync_tag = prev
+            self._finish(i, result, exc)
+            return True
+        self._advance(i, False)
+        return True
+
+    def step(self, i):
+        """job i runs up to its next pause; True when it has finished"""
+        fut, fn, args, ran, kw, co = self.jobs[i]
+        assert not ran
+        if co is None:
+            assert len(self.under_way()) < self.max_workers, "no free worker"
+            co = self.jobs[i][5] = _Co(fn, args, kw, ("job", self.host, i))
+        return self._advance(i, True)
+
+    def _advance(self, i, stepping):
+        co = self.jobs[i][5]
+        ok = co.advance(stepping, timeout=0.5)
+        if not ok:
+            # blocked (e.g. on a lock held by another paused job): let the others finish, then it must get on
+            for k in self.under_way():
+                if k != i:
+                    ok2 = self.jobs[k][5].advance(False, timeout=HANG_S)
+                    if not ok2:
+                        raise JobHang(f"pool job {k} does not finish")
+                    o = self.jobs[k][5]
+                    self._finish(k, o.result, o.exc)
+                    self.cluster.finished_aside.append((self.host, k))
+            if co.still_running(HANG_S):
+                raise JobHang(f"pool job {i} does not get on")
+        if co.finished:
+            self._finish(i, co.result, co.exc)
+            return True
+        return False
 
     def index_of(self, fut):
         for i, j in enumerate(self.jobs):
@@ -97,13 +285,12 @@ class ManualExecutor:
         pass
 
 
-class ConflictError(Exception):
-    pass
-
-
+# ----------------------------------------------------------------------------- shm
 class Buf:
     def __init__(self, shm, key, data, deser_fun, create):
         self.shm, self.key, self.data, self.deser_fun, self.create = shm, key, data, deser_fun, create
+        self.l = len(data)
+        self.readonly = not create
         self.open = True
         shm.open_bufs.append(self)
 
@@ -135,7 +322,7 @@ class HostShm:
 
     def allocate(self, key, l, deser_fun, timeout_sec=60.0):
         if key in self.data or key in self.created:
-            raise ConflictError()
+            raise self.cluster.ConflictError()
         self.created.add(key)
         self.alloc_count[key] = self.alloc_count.get(key, 0) + 1
         return Buf(self, key, bytearray(l), deser_fun, True)
@@ -151,22 +338,22 @@ class HostShm:
         self.data.pop(key, None)
 
 
-class ShmDispatch:
-    """stands in for the module cascade.shm.client inside data_server: routes to the shm of the host whose code is running"""
-    ConflictError = ConflictError
-    AllocatedBuffer = Buf
+_BINDINGS = {}
 
-    def __init__(self, cluster):
-        self.cluster = cluster
 
-    def allocate(self, key, l, deser_fun, timeout_sec=60.0):
-        return self.cluster.cur_shm().allocate(key, l, deser_fun)
-
-    def get(self, key, timeout_sec=60.0):
-        return self.cluster.cur_shm().get(key)
-
-    def purge(self, key):
-        return self.cluster.cur_shm().purge(key)
+def _bindings(mod, name, old):
+    """(module, attribute) pairs of loaded cascade.* modules bound to the object `old` (= mod.name before the swap)"""
+    key = (mod.__name__, name)
+    if key not in _BINDINGS:
+        out = []
+        for mname, m in list(sys.modules.items()):
+            if m is None or not (mname == "cascade" or mname.startswith("cascade.")) or m is mod:
+                continue
+            for attr, val in list(vars(m).items()):
+                if val is old:
+                    out.append((m, attr))
+        _BINDINGS[key] = out
+    return _BINDINGS[key]
 
 
 class Cluster:
@@ -176,17 +363,30 @@ class Cluster:
         import cascade.executor.comms as comms
         import cascade.executor.data_server as dsm
         import cascade.shm.api as shm_api
-        self.comms, self.dsm, self.shm_api = comms, dsm, shm_api
+        import cascade.shm.client as shm_client
+        import zmq
+        self.comms, self.dsm, self.shm_api, self.shm_client, self.zmq = comms, dsm, shm_api, shm_client, zmq
+        self.ConflictError = shm_client.ConflictError
         self.clock = Clock(start_ns)
         self.net = []            # [(address, [frames])] in flight
+        self.net_tags = []       # parallel to net: who sent the frames of the message
         self.events = {}         # host index -> [message] callbacks to maddress, in order
         self.event_ctx = {}
         self.current = None      # host index whose code is running
         self.picks = []
+        self.used_picks = []
         self.purge_violations = []
         self.nhosts = nhosts
         self.pull, self.listener, self.server, self.pool, self.shm, self.crashed = {}, {}, {}, {}, {}, {}
         self.ctl_received = []
+        self.pull_by_addr = {}
+        self.created_pools = []
+        self.wire_log = []       # every frame send: (socket id, sender tag, SNDMORE, address)
+        self.mixed = []          # messages put on the wire whose frames come from different senders
+        self.sync_tag = None
+        self.finished_aside = []
+        self.nsock = 0
+        self.ctl_crashed = None
 
     # --- addresses
     @staticmethod
@@ -197,15 +397,34 @@ class Cluster:
     def hname(i):
         return "controller" if i == 0 else f"h{i}"
 
-    def emit(self, address, frames):
-        if address.startswith("m"):
+    def new_socket_id(self):
+        self.nsock += 1
+        return self.nsock
+
+    def sender_tag(self):
+        """who is sending: a pool job (its own thread, or run in line by the harness), a loop, or the harness (controller)"""
+        t = getattr(threading.current_thread(), "_verif_tag", None)
+        if t is not None:
+            return t
+        if self.sync_tag is not None:
+            return self.sync_tag
+        return ("loop", self.current)
+
+    def emit(self, address, frames, tags):
+        if len(set(tags)) > 1:
+            self.mixed.append((address, [len(f) for f in frames], list(tags)))
+        if isinstance(address, str) and address.startswith("m"):
             h = int(address[1:])
-            m = pickle.loads(frames[0])
+            try:
+                m = pickle.loads(frames[0])
+            except Exception:
+                m = ("undecodable", bytes(frames[0])[:20])
             self.events[h].append(m)
             # what the host's shm holds, and how often each key was allocated, at the moment of the callback
             self.event_ctx[h].append((dict(self.shm[h].data), dict(self.shm[h].alloc_count)))
         else:
             self.net.append((address, frames))
+            self.net_tags.append(list(tags))
 
     def cur_shm(self):
         return self.shm[self.current]
@@ -214,16 +433,16 @@ class Cluster:
         # the property: a purge waits for reads (and stores) in progress on that dataset
         pend = []
         for i in self.pool[host].pending():
-            a = self.pool[host].jobs[i][2][0]
-            ds = a.ds if hasattr(a, "ds") else a.header.ds
-            if self.dsm.ds2shmid(ds) == key:
+            a = self.pool[host].jobs[i][2][0] if self.pool[host].jobs[i][2] else None
+            ds = getattr(a, "ds", None) or getattr(getattr(a, "header", None), "ds", None)
+            if ds is not None and self.dsm.ds2shmid(ds) == key:
                 pend.append(i)
         openb = [b for b in self.shm[host].open_bufs if b.key == key]
         if pend or openb:
             self.purge_violations.append((host, key, pend, len(openb)))
 
     def _wait(self, fs, timeout=None, return_when="ALL_COMPLETED"):
-        """data_server.wait: the loop blocks until the pool has finished enough; the trace picks which jobs finish"""
+        """concurrent.futures.wait: the loop blocks until the pool has finished enough; the trace picks which jobs finish"""
         fs = list(fs)
         pool = self.pool[self.current]
 
@@ -244,57 +463,77 @@ class Cluster:
                 pool.run(pool.index_of(nd[p % len(nd)]))
                 self.used_picks.append(p)
         done = {f for f in fs if f.done()}
-        import collections
         return collections.namedtuple("DoneAndNotDoneFutures", "done not_done")(done, set(fs) - done)
+
+    # --- the seams
+    def _shm_allocate(self, key, l, deser_fun, timeout_sec=60.0):
+        return self.cur_shm().allocate(key, l, deser_fun)
+
+    def _shm_get(self, key, timeout_sec=60.0):
+        return self.cur_shm().get(key)
+
+    def _shm_purge(self, key, *a, **k):
+        return self.cur_shm().purge(key)
 
     @contextlib.contextmanager
     def patched(self):
-        comms, dsm, shm_api = self.comms, self.dsm, self.shm_api
-        saved = (comms.get_socket, dsm.shm_client, dsm.time_ns, dsm.wait, dsm.Listener, dsm.ThreadPoolExecutor,
-                 shm_api.publish_client_port, dsm.logging.config.dictConfig)
-        comms.get_socket = lambda address: Push(self, address)
-        dsm.shm_client = ShmDispatch(self)
-        dsm.time_ns = self.clock.time_ns
-        dsm.wait = self._wait
-        dsm.Listener = self._make_listener
-        dsm.ThreadPoolExecutor = ManualExecutor
-        shm_api.publish_client_port = lambda port: None
-        dsm.logging.config.dictConfig = lambda cfg: None
+        global _CUR
+        zmq, shm_client, shm_api = self.zmq, self.shm_client, self.shm_api
+        swaps = [
+            (zmq, "Context", Context), (zmq, "Poller", Poller),
+            (time, "time_ns", self.clock.time_ns),
+            (concurrent.futures, "wait", self._wait), (concurrent.futures, "ThreadPoolExecutor", ManualExecutor),
+            (shm_client, "allocate", self._shm_allocate), (shm_client, "get", self._shm_get), (shm_client, "purge", self._shm_purge),
+            (shm_api, "publish_client_port", lambda port: None),
+            (logging.config, "dictConfig", lambda cfg: None),
+        ]
+        saved = []
+        for mod, name, new in swaps:
+            old = getattr(mod, name)
+            saved.append((mod, name, old))
+            setattr(mod, name, new)
+            # names bound by `from x import y` in the code under test
+            for m, attr in _bindings(mod, name, old):
+                saved.append((m, attr, old))
+                setattr(m, attr, new)
+        prev_cur, _CUR = _CUR, self
         prev = logging.root.manager.disable
         logging.disable(logging.CRITICAL)
         try:
             self._build()
             yield self
         finally:
+            for pool in self.pool.values():       # no thread is left behind
+                for k in pool.under_way():
+                    try:
+                        self.current = pool.host
+                        pool.run(k)
+                    except Exception:
+                        pass
+            self.current = None
             logging.disable(prev)
-            (comms.get_socket, dsm.shm_client, dsm.time_ns, dsm.wait, dsm.Listener, dsm.ThreadPoolExecutor,
-             shm_api.publish_client_port, dsm.logging.config.dictConfig) = saved
-
-    def _make_listener(self, address):
-        l = object.__new__(self.comms.Listener)   # the real class; only the zmq socket/poller are stubs
-        sock = Pull()
-        l.address = address
-        l.socket = sock
-        l.poller = Poller(sock)
-        l.acked = set()
-        self._last_pull = sock
-        return l
+            _CUR = prev_cur
+            for mod, name, old in reversed(saved):
+                setattr(mod, name, old)
 
     def _build(self):
-        self.listener[0] = self._make_listener("ctl")
-        self.pull[0] = self._last_pull
-        from cascade.executor.comms import ReliableSender
-        self.sender = ReliableSender("ctl", 800)
+        self.listener[0] = self.comms.Listener("ctl")     # the controller's listener (real class, real __init__)
+        self.pull[0] = self.pull_by_addr["ctl"]
+        self.sender = self.comms.ReliableSender("ctl", 800)
         for i in range(1, self.nhosts + 1):
             self.events[i] = []
             self.event_ctx[i] = []
             self.shm[i] = HostShm(self, i)
             self.current = i
+            npools = len(self.created_pools)
             srv = self.dsm.DataServer(f"m{i}", f"d{i}", f"h{i}", 12345, {"version": 1})
             self.server[i] = srv
-            self.listener[i] = srv.dlistener
-            self.pull[i] = srv.dlistener.socket
-            self.pool[i] = srv.ds_proc_tp
+            self.pull[i] = self.pull_by_addr[f"d{i}"]
+            pools = self.created_pools[npools:]
+            if len(pools) != 1:
+                raise RuntimeError(f"DataServer.__init__ created {len(pools)} thread pools, the harness knows how to drive one")
+            self.pool[i] = pools[0]
+            pools[0].host = i
             self.crashed[i] = None
             self.sender.add_host(f"data.h{i}", f"d{i}")
         self.current = None
@@ -303,36 +542,53 @@ class Cluster:
     def publish(self, host, ds, value, deser_fun):
         """what a worker's Memory.handle does with a published output"""
         self.current = host
-        buf = self.dsm.shm_client.allocate(key=self.dsm.ds2shmid(ds), l=len(value), deser_fun=deser_fun)
+        buf = self.shm[host].allocate(self.dsm.ds2shmid(ds), len(value), deser_fun)
         buf.view()[:len(value)] = value
         buf.close()
         self.current = None
 
     def command(self, cmd):
         """Bridge.transmit / Bridge.fetch: the controller's ReliableSender frames the command"""
-        self.sender.send("data." + cmd.source, cmd)
+        self.sync_tag = ("ctl",)
+        try:
+            self.sender.send("data." + cmd.source, cmd)
+        finally:
+            self.sync_tag = None
 
     def purge(self, host, ds):
         """Executor.recv_loop: callback(self.daddress, DatasetPurge)"""
         from cascade.executor.msg import DatasetPurge
-        self.comms.callback(f"d{host}", DatasetPurge(ds=ds))
+        self.sync_tag = ("exe", host)
+        try:
+            self.comms.callback(f"d{host}", DatasetPurge(ds=ds))
+        finally:
+            self.sync_tag = None
 
     def deliver(self, i):
         address, frames = self.net.pop(i)
-        idx = 0 if address == "ctl" else int(address[1:])
-        self.pull[idx].queue.append(list(frames))
+        self.net_tags.pop(i)
+        self.pull_by_addr[address].queue.append(list(frames))
 
     def drop(self, i):
         self.net.pop(i)
+        self.net_tags.pop(i)
 
     def dup(self, i):
         address, frames = self.net[i]
         self.net.append((address, list(frames)))
+        self.net_tags.append(list(self.net_tags[i]))
 
     def run_job(self, host, k):
         self.current = host
         try:
-            self.pool[host].run(k)
+            return self.pool[host].run(k)
+        finally:
+            self.current = None
+
+    def step_job(self, host, k):
+        self.current = host
+        try:
+            return self.pool[host].step(k)
         finally:
             self.current = None
 
@@ -341,25 +597,35 @@ class Cluster:
         self.picks = list(picks)
         self.used_picks = []
         if host == 0:
-            got = self.listener[0].recv_messages(0)
+            if self.ctl_crashed:
+                return None
+            self.current = 0
+            try:
+                got = self.listener[0].recv_messages(0)
+            except Exception as e:  # the controller would die here
+                self.ctl_crashed = type(e).__name__ + ": " + str(e)[:200]
+                return None
+            finally:
+                self.current = None
             self.ctl_received.extend(got)
             return len(got)
         if self.crashed[host]:
             return None
         srv = self.server[host]
         self.current = host
-        orig = srv.dlistener.recv_messages
+        lst = srv.dlistener
+        orig = lst.recv_messages
 
-        def once(timeout_ms=None):
+        def once(timeout_ms=None, *a, **k):
             srv.terminating = True     # the loop body runs exactly once
             return orig(0)
-        srv.dlistener.recv_messages = once
+        lst.recv_messages = once
         srv.terminating = False
         try:
             srv.recv_loop()
         except Exception as e:  # the process would die here
             self.crashed[host] = type(e).__name__ + ": " + str(e)[:200]
         finally:
-            del srv.dlistener.recv_messages
+            del lst.recv_messages
             self.current = None
         return None
